@@ -340,6 +340,12 @@ def finish(prop, tier, seed, meta, insts, reports, t0, args):
                 known_hits.append((k, inst, v))
             else:
                 violations.append((inst, v))
+    slow = float(os.environ.get('VERIF_SLOW', '0') or 0)
+    if slow:
+        for inst, rep in reports:
+            for ob in rep.get('obligations', []):
+                if ob.get('time', 0) >= slow:
+                    print('SLOW %.1fs %s %s :: %s' % (ob['time'], ob.get('backend'), inst.key, ob['name']))
     # ---- engine soundness guards: never reported as property violations
     engine_bad = []
     if cc_mismatch:
